@@ -1,10 +1,13 @@
 SPECIFICATION Spec
 CONSTANTS
   Txs <- T3
+  Subm <- S2
   Limit = 2
   MaxBlk = 2
+  PushChecked = TRUE
+  AtomicAppend = TRUE
   KeepCommittedInCache = TRUE
 VIEW view
-INVARIANTS NoDuplicates HeldIsCached WithinBounds NoReofferCommitted ResubOnlyAfterFlush
+INVARIANTS NoDuplicates HeldIsCached WithinBounds NoReofferCommitted
 PROPERTIES RejectsDuplicates
 CHECK_DEADLOCK FALSE
